@@ -58,6 +58,22 @@ async def query_request(request: Request) -> JSONResponse:
         sql_text = body_json["sqlText"]
 
         try:
+            if body_json.get("describeOnly"):
+                # cursor.describe(): the columns of the result, without running the statement
+                describe_cur = conn.cursor()
+                rows = await run_in_threadpool(lambda: describe_cur.execute(f"DESCRIBE {sql_text}").fetchall())
+                return JSONResponse(
+                    {
+                        "data": {
+                            "rowtype": describe_as_rowtype(rows),
+                            "rowsetBase64": "",
+                            "total": 0,
+                            "queryResultFormat": "arrow",
+                        },
+                        "success": True,
+                    }
+                )
+
             # only a single sql statement is sent at a time by the python snowflake connector
             cur = await run_in_threadpool(conn.cursor().execute, sql_text)
         except snowflake.connector.errors.ProgrammingError as e:
